@@ -1,0 +1,39 @@
+//go:build verif
+
+// Contracts for package logging, checked by /verif/gocv (comment-only file).
+package logging
+
+// ================= C20: the in-memory log buffer keeps the most recent entries of all loggers ====
+//
+// All cores of one logger family write into one ring. For the ring to hold exactly the most recent
+// entries, every core of the family must agree on the cursor (the next slot to overwrite) and must
+// serialise on one mutex:
+//   FamInv: two cores whose cursors lie in the same ring have the same cursor;
+//   MuInv:  two cores whose cursors lie in the same ring share their mutex.
+//@ pred FamInv() = forall c1 *MemCore, c2 *MemCore :: allocated(c1) && allocated(c2) && c1 != nil && c2 != nil && c1.r != nil && c2.r != nil ==> allocated(c1.r) && (RingOf(c1.r) == RingOf(c2.r) ==> c1.r == c2.r)
+//@ pred MuInv() = forall c1 *MemCore, c2 *MemCore :: allocated(c1) && allocated(c2) && c1 != nil && c2 != nil && c1.r != nil && c2.r != nil && RingOf(c1.r) == RingOf(c2.r) ==> c1.mu == c2.mu
+
+//@ func NewMemLogger returns (l)
+//@   props C20
+//@   mode wrap
+//@   requires FamInv() && MuInv()
+//@   ensures l != nil && l.core != nil && l.core.r != nil && l.core.mu != nil && fresh(l.core)          #fresh-core-with-ring
+//@   ensures FamInv()                                                                                     #cursor-agreement-kept
+//@   ensures MuInv()                                                                                      #mutex-agreement-kept
+
+// Write stores the entry in the cursor cell and advances the cursor by one cell of the same ring.
+//@ func (*MemCore).Write returns (err)
+//@   props C20
+//@   mode wrap
+//@   requires mc.mu != nil && mc.r != nil && FamInv() && (mc.r.Value != nil ==> mc.r.Value is *observer.LoggedEntry && mc.r.Value.(*observer.LoggedEntry) != nil)
+//@   ensures err == nil && old(mc.r).Value is *observer.LoggedEntry && old(mc.r).Value.(*observer.LoggedEntry) != nil      #entry-in-cursor-cell
+//@   ensures RingOf(mc.r) == RingOf(old(mc.r)) && (old(mc.r).next != nil ==> mc.r == old(mc.r).next)                         #cursor-advanced-by-one
+//@   ensures FamInv()                                                                                                         #cursor-agreement-kept
+
+//@ func (*MemCore).clone returns (c)
+//@   props C20
+//@   mode wrap
+//@   requires mc.mu != nil && mc.enc != nil && mc.r != nil && FamInv() && MuInv()
+//@   ensures c != nil && fresh(c) && c.r == mc.r                                #shares-the-ring
+//@   ensures FamInv()                                                            #cursor-agreement-kept
+//@   ensures MuInv()                                                             #mutex-agreement-kept
